@@ -166,7 +166,7 @@ def run_pipeline(spec: Dict[str, Any]) -> Dict[str, Any]:
         ev.append(dict(e, vt=t))
     ev.append({"e": "tick", "t": rank + 1})
     ev.append({"e": "end"})
-    strict = "recover" not in flags
+    strict = "recover" not in flags and not any("recover_upstream" in cat.CATALOGUE[n][2] for n in spec["names"][1:])
     # the pipeline is one window/group operator and the sink subscribes to what it hands out: a fault is the operator's own
     own = len(spec["names"]) == 1 and "obs_out" in flags and not spec.get("ignore_groups")
     solo = len(spec["names"]) == 1 and "queued" not in flags
